@@ -40,7 +40,10 @@ def main():
                 os.makedirs(os.path.dirname(test_dst), exist_ok=True)
                 shutil.copy(d + "/check_test.go.txt", test_dst)
                 pkg = "./" + os.path.dirname(rel)
-                rc, o = sh(f"go test -vet=off -count=1 {pkg}", cwd=wt)
+                import re as _re
+                names = _re.findall(r"^func (Test\w+)\(", open(d + "/check_test.go.txt").read(), flags=_re.M)
+                runre = "^(" + "|".join(names) + ")$" if names else "."
+                rc, o = sh(f"go test -vet=off -count=1 -run '{runre}' {pkg}", cwd=wt)
                 res["verified_by_me"].append(f"focused test on the unchanged tree ({pkg}): {'PASS' if rc == 0 else 'FAIL'}")
                 res["focused_before"] = rc == 0
             rc, o = sh(f"git apply {d}/patch.diff", cwd=wt)
@@ -53,7 +56,7 @@ def main():
                 print(f"{prop}-r{k}: DOES NOT BUILD: {o[:400]}")
                 continue
             if test_dst:
-                rc, o = sh(f"go test -vet=off -count=1 {pkg}", cwd=wt)
+                rc, o = sh(f"go test -vet=off -count=1 -run '{runre}' {pkg}", cwd=wt)
                 res["verified_by_me"].append(f"focused test with the change: {'PASS' if rc == 0 else 'FAIL'}")
                 res["focused_after"] = rc == 0
                 os.remove(test_dst)
